@@ -24,7 +24,12 @@ import (
 	"go.etcd.io/raft/v3/raftpb"
 )
 
-const vsScratchRoot = "/root/scratch/ctrlsim"
+var vsScratchRoot = func() string {
+	if b := os.Getenv("VERIF_SCRATCH"); b != "" {
+		return filepath.Join(b, "ctrlsim")
+	}
+	return "/root/scratch/ctrlsim"
+}()
 
 var errVsInjected = errors.New("verif: injected fault")
 
